@@ -331,6 +331,16 @@ class SchemaGen:
             if (closed if self.avoid else self.chance(0.3)):
                 b["additionalProperties"] = False
             branches.append(b)
+        if self.avoid:
+            # exactly one non-tag member overall makes typify read this as ADJACENT tagging: keep such unions out of
+            # the recorded regions (content struct must then be open, wrapper closedness is not represented)
+            others = {k for b in branches for k in b["properties"] if k != tag}
+            if len(others) == 1:
+                for b in branches:
+                    b.pop("additionalProperties", None)
+                    for k in list(b["properties"]):
+                        if k != tag:
+                            b["properties"][k] = self.uniform_closed(b["properties"][k], False)
         return {"oneOf": branches}
 
     def s_oneof_adjacent(self, d):
